@@ -21,7 +21,7 @@ Fixpoint chain_domain (g : gstate) (fs : list (header * list record)) : Prop :=
   | [] => True
   | (h, rs) :: r =>
       header_wf h /\ h_dsize h = N.of_nat (List.length (ser_records rs)) /\
-      starts_with_file_id rs = true /\ stream_wf rs = true /\ no_time_quirk rs = true /\
+      starts_with_file_id rs = true /\ stream_wf rs = true /\
       exists ss f2 g1 f g',
         denote rs = Some ss /\ start_file h g (hd dummy_msg (ss_msgs ss)) = Some (f2, g1) /\
         route_msgs h g (ss_msgs ss) = Some (f, g') /\ chain_domain g' r
@@ -97,9 +97,9 @@ Proof.
     repeat split; try reflexivity; [exact Hd|lia].
   - destruct files as [|k]; [lia|].
     cbn [chain_domain] in Hdom.
-    destruct Hdom as (Hh & Hsz & Hs & Hwf & Hq & ss & f2 & g1 & f & g' & Hden & Hst & Hroute & Hdom').
+    destruct Hdom as (Hh & Hsz & Hs & Hwf & ss & f2 & g1 & f & g' & Hden & Hst & Hroute & Hdom').
     rewrite chain_bytes_cons in Hd.
-    destruct (Decode_denote_full o g rd fuel h rs ss f2 g1 (chain_bytes r) Hh Hsz Hs Hwf Hq Hden Hst Hd Hf)
+    destruct (Decode_denote_full o g rd fuel h rs ss f2 g1 (chain_bytes r) Hh Hsz Hs Hwf Hden Hst Hd Hf)
       as (rd1 & file' & fx & gx & q0 & Hdec & Hroute' & Hsl & Hin & Hhd & Hcrc & Hum & Huf & Hpos & Hrest & Hterm & Hmsr & Halone).
     rewrite Hroute in Hroute'. inversion Hroute'; subst fx gx. clear Hroute'.
     cbn [decode_chained]. unfold entry_Decode in Hdec. rewrite Hdec. cbn [dr_err dr_file dr_g dr_rd dr_quirks].
@@ -217,10 +217,10 @@ Definition file_step (h : header) (g : gstate) (rs : list record) : option gstat
 
 Lemma chain_domain_step h g rs g' r :
   header_wf h -> h_dsize h = N.of_nat (List.length (ser_records rs)) ->
-  starts_with_file_id rs = true -> stream_wf rs = true -> no_time_quirk rs = true ->
+  starts_with_file_id rs = true -> stream_wf rs = true ->
   file_step h g rs = Some g' -> chain_domain g' r -> chain_domain g ((h, rs) :: r).
 Proof.
-  intros Hh Hsz Hs Hwf Hq Hstep Hr. cbn [chain_domain]. repeat (split; [assumption|]).
+  intros Hh Hsz Hs Hwf Hstep Hr. cbn [chain_domain]. repeat (split; [assumption|]).
   unfold file_step in Hstep.
   destruct (denote rs) as [ss|]; [|discriminate].
   destruct (start_file h g (hd dummy_msg (ss_msgs ss))) as [[f2 g1]|] eqn:Est; [|discriminate].
@@ -230,8 +230,8 @@ Qed.
 
 Lemma ok_stream_facts :
   h_dsize ok_hdr = N.of_nat (List.length (ser_records ok_stream)) /\
-  starts_with_file_id ok_stream = true /\ stream_wf ok_stream = true /\ no_time_quirk ok_stream = true.
-Proof. split; [reflexivity|]. split; [vm_compute; reflexivity|]. split; vm_compute; reflexivity. Qed.
+  starts_with_file_id ok_stream = true /\ stream_wf ok_stream = true.
+Proof. split; [reflexivity|]. split; vm_compute; reflexivity. Qed.
 
 Example ok_chain_in_domain :
   chain_domain g_init ok_chain /\ rd_data ok_chain_reader = chain_bytes ok_chain /\ rd_term ok_chain_reader = TEOF /\
@@ -239,11 +239,11 @@ Example ok_chain_in_domain :
 Proof.
   split; [|split; [vm_compute; reflexivity|split; [reflexivity|vm_compute; lia]]].
   unfold ok_chain.
-  destruct ok_stream_facts as (F1 & F2 & F3 & F4).
+  destruct ok_stream_facts as (F1 & F2 & F3).
   destruct (file_step ok_hdr g_init ok_stream) as [ga|] eqn:E1; [|vm_compute in E1; discriminate].
-  apply (chain_domain_step ok_hdr g_init ok_stream ga _ ok_hdr_wf F1 F2 F3 F4 E1).
+  apply (chain_domain_step ok_hdr g_init ok_stream ga _ ok_hdr_wf F1 F2 F3 E1).
   destruct (file_step ok_hdr ga ok_stream) as [gb|] eqn:E2.
-  - apply (chain_domain_step ok_hdr ga ok_stream gb _ ok_hdr_wf F1 F2 F3 F4 E2). exact I.
+  - apply (chain_domain_step ok_hdr ga ok_stream gb _ ok_hdr_wf F1 F2 F3 E2). exact I.
   - exfalso. vm_compute in E1. injection E1 as <-. vm_compute in E2. discriminate E2.
 Qed.
 
